@@ -553,6 +553,8 @@ class Analysis:
                 ip = self.as_poly(idx)
                 if ip is not None:
                     return ("P", p[1], p[2] + ip * es, None)
+        if fn in ("core::slice::<impl [T]>::chunks", "core::slice::<impl [T]>::chunks_mut") and ptr() and len(args) > 1 and args[1][0] == "I":
+            return ("V", "iter", "chunks", ptr(), args[1][1])
         if fn in ("core::slice::<impl [T]>::iter", "core::slice::<impl [T]>::iter_mut"):
             p = ptr()
             if p:
@@ -619,6 +621,9 @@ class Analysis:
         if kind == "slice":
             p = it[3]
             return ("P", p[1], p[2] + Poly.atom(("elemoff", tag)), None)
+        if kind == "chunks":
+            p = it[3]
+            return ("P", p[1], p[2] + Poly.atom(("elemoff", tag)), Poly.atom(("chunklen", tag, it[4])))
         if kind == "enumerate":
             inner = self.iter_elem(it[3], tag + (0,))
             return None if inner is None else ("A", "tuple", (("I", Poly.atom(("enum_idx", tag))), inner))
@@ -883,9 +888,60 @@ class Analysis:
             if va != phi:
                 changed = True
         facts = self.meet_facts(a.facts, b.facts)
+        # relational facts about freshly merged integers: a bound that holds for the value on each incoming edge holds for the phi
+        extra = set()
+        for k in mem:
+            v = mem[k]
+            va, vb = a.mem.get(k), b.mem.get(k)
+            if va is None or vb is None or va == vb or v[0] != "I" or va[0] != "I" or vb[0] != "I":
+                continue
+            if len(v[1].t) != 1:
+                continue
+            (m, c), = v[1].t.items()
+            if c != 1 or len(m) != 1 or not (isinstance(m[0], tuple) and m[0][0] == "phi" and m[0][1] == bb):
+                continue
+            patom = m[0]
+            extra |= self._phi_facts(patom, va[1], a.facts, vb[1], b.facts)
+        if extra:
+            facts = facts | frozenset(extra)
         if facts != a.facts:
             changed = True
         return State(mem, facts), changed
+
+    def _phi_facts(self, patom, pa, fa, pb, fb):
+        """Candidate bounds on the merged value, kept when they hold on both edges (with the phi replaced by the edge's value)."""
+        P = Poly.atom(patom)
+        cands = set()
+        for pv, fs in ((pa, fa), (pb, fb)):
+            atoms = pv.atoms()
+            single = None
+            if len(pv.t) == 1:
+                (m, c), = pv.t.items()
+                if c == 1 and len(m) == 1:
+                    single = m[0]
+            for f in fs:
+                if f[0] != "poly" or f[2].is_const():
+                    continue
+                if single is not None and single in f[2].atoms():
+                    q = f[2].subst({single: P})
+                    cands.add((f[1], q))
+                    if f[1] == ">=":
+                        cands.add((">=", q + Poly.const(1)))  # strict -> non-strict
+                    if f[1] == "==":
+                        cands.add((">=", q))
+                        cands.add((">=", -q))
+            # the value itself as a bound: phi <= value-of-the-other-side style candidates
+            cands.add((">=", pv - P))
+            cands.add((">=", P - pv))
+        out = set()
+        pfa, pfb = self.poly_facts(fa), self.poly_facts(fb)
+        for rel, q in cands:
+            if q.is_const() or patom not in q.atoms():
+                continue
+            qa, qb = q.subst({patom: pa}), q.subst({patom: pb})
+            if prove((rel, qa), pfa, 200) and prove((rel, qb), pfb, 200):
+                out.add(("poly", rel, q))
+        return out
 
     def meet_facts(self, fa, fb):
         """Facts implied by both sides: syntactic intersection plus weakenings provable from each side
@@ -1096,9 +1152,12 @@ class Analysis:
                         work.append(succ)
         # recording pass
         self.edges = {}
+        self.edge_facts = {}  # (pred, succ) -> list of fact sets, one per CFG edge
         for bb in sorted(self.block_in):
             outs = self.exec_block(bb, self.block_in[bb].copy(), True)
             self.edges[bb] = [s for s, _ in outs]
+            for s, st2 in outs:
+                self.edge_facts.setdefault((bb, s), []).append(st2.facts)
         return self
 
     # ---- extents ---------------------------------------------------------------------------
